@@ -24,7 +24,11 @@ RULE = ("geometries: shapes H,W in 1..9 (all parity combinations, 1xN and Nx1 in
         "Mask2D.circular / circular_annular / circular_anti_annular / elliptical / elliptical_annular, Mask1D.geometry, "
         "Grid1D.from_mask / uniform) AND the util function; both outputs are checked. Non-trivial = non-square shape or "
         "unequal scales or non-zero origin/centre; distinct = distinct JSON input.")
-EXHAUSTIVE = {}
+EXHAUSTIVE = {
+    "quick": "every shape H x W with H, W <= 6 and every pixel of it: pixel-centre grid, centre -> (row, column) -> flat index "
+             "(one sampled anisotropic geometry with unequal non-zero origin per shape; scales / origins are sampled, not enumerated)",
+    "thorough": "as quick with H, W <= 9",
+}
 TRUSTED = ["py2v plug-in py2v/gen_geometry.py (fail-closed ast -> Gallina over NumOps; coq/Gen/Gen_geometry.v regenerated from /repo on "
            "every run): scalar conversions, Geometry1D/2D extent properties, the slim-grid conversion loops, the pixel-centre gathers, "
            "the circular / annular / anti-annular constructor loops and (over R only) elliptical_radius_from and the two elliptical "
@@ -271,8 +275,21 @@ def gen_mask_cases(rng, exact, kinds):
             if not mask_case_inband(inp):
                 yield inp; break
 
+def gen_all_shapes(rng, nmax):
+    """every shape up to nmax x nmax, every pixel: centre grid, and each centre back to its index / flat index"""
+    for H in range(1, nmax + 1):
+        for W in range(1, nmax + 1):
+            sy, sx = rng.choice(EXACT_SCALES), rng.choice(EXACT_SCALES)
+            oy, ox = sy * Fraction(rng.choice([-7, -3, -1, 1, 2, 5]), 4), sx * Fraction(rng.choice([-6, -2, 1, 3, 9]), 4)
+            base = {"exact": True, "shape": [H, W], "s": [S(sy), S(sx)], "o": [S(oy), S(ox)]}
+            centres = [[S(oy + (Fraction(H - 1, 2) - i) * sy), S(ox + (j - Fraction(W - 1, 2)) * sx)] for i in range(H) for j in range(W)]
+            yield dict(base, op="gridmask", m=[[False] * W for _ in range(H)])
+            yield dict(base, op="gridcentres", g=centres)
+            yield dict(base, op="gridindexes", g=centres)
+
 def gen_inputs(tier, rng):
     big = tier == "thorough"
+    yield from gen_all_shapes(rng, 9 if big else 6)
     n_geom = 400 if big else 44
     for i in range(n_geom):
         yield from gen_geometry_cases(rng, exact=(i % 3 != 2))
@@ -318,7 +335,8 @@ def run_case(inp):
         H, W = inp["shape"]; sy, sx = F(inp["s"][0]), F(inp["s"][1]); oy, ox = F(inp["o"][0]), F(inp["o"][1])
         sh, ps, org = (H, W), (fl(sy), fl(sx)), (fl(oy), fl(ox))
         hdr = f"{z2(sh)} {q2((sy, sx))} {q2((oy, ox))}"
-        mask = aa.Mask2D.all_false(shape_native=sh, pixel_scales=ps, origin=org) if op != "gridmask" else None
+        ps_pub = ps[0] if (sy == sx and (H + W) % 2) else ps       # a bare float is widened by convert_pixel_scales_2d
+        mask = aa.Mask2D.all_false(shape_native=sh, pixel_scales=ps_pub, origin=org) if op != "gridmask" else None
         def margin_bad(pts):
             return (not exact) and any(in_margin(pixel_pos(H, sy, oy, F(p[0]), True)) or in_margin(pixel_pos(W, sx, ox, F(p[1]), False))
                                        for p in pts)
@@ -430,24 +448,25 @@ def run_case(inp):
         hdr = f"{z2(sh)} {q2((sy, sx))}"
         cc = q2((cy, cx))
         kw = dict(shape_native=sh, pixel_scales=ps, centre=ctr)
+        kwp = dict(kw, pixel_scales=ps[0]) if (sy == sx and (H + W) % 2) else kw      # public entry point: bare float scale
         if op == "circ":
             r = F(inp["r"][0])
-            outs = [aa.Mask2D.circular(radius=fl(r), origin=org, **kw), mu.mask_2d_circular_from(radius=fl(r), **kw)]
+            outs = [aa.Mask2D.circular(radius=fl(r), origin=org, **kwp), mu.mask_2d_circular_from(radius=fl(r), **kw)]
             mk = lambda o: f"(KCirc {hdr} {cq(r)} {cc} {cmask(np.array(o))})"
         elif op == "ann":
             a, b = F(inp["r"][0]), F(inp["r"][1])
-            outs = [aa.Mask2D.circular_annular(inner_radius=fl(a), outer_radius=fl(b), origin=org, **kw),
+            outs = [aa.Mask2D.circular_annular(inner_radius=fl(a), outer_radius=fl(b), origin=org, **kwp),
                     mu.mask_2d_circular_annular_from(inner_radius=fl(a), outer_radius=fl(b), **kw)]
             mk = lambda o: f"(KAnn {hdr} {cq(a)} {cq(b)} {cc} {cmask(np.array(o))})"
         elif op == "anti":
             a, b, c3 = (F(v) for v in inp["r"])
-            outs = [aa.Mask2D.circular_anti_annular(inner_radius=fl(a), outer_radius=fl(b), outer_radius_2=fl(c3), origin=org, **kw),
+            outs = [aa.Mask2D.circular_anti_annular(inner_radius=fl(a), outer_radius=fl(b), outer_radius_2=fl(c3), origin=org, **kwp),
                     mu.mask_2d_circular_anti_annular_from(inner_radius=fl(a), outer_radius=fl(b), outer_radius_2_scaled=fl(c3), **kw)]
             mk = lambda o: f"(KAnti {hdr} {cq(a)} {cq(b)} {cq(c3)} {cc} {cmask(np.array(o))})"
         elif op == "ell":
             R, q, ang, co, si = (F(v) for v in inp["ell"][0])
             check_cs(ang, co, si)
-            outs = [aa.Mask2D.elliptical(major_axis_radius=fl(R), axis_ratio=fl(q), angle=fl(ang), origin=org, **kw),
+            outs = [aa.Mask2D.elliptical(major_axis_radius=fl(R), axis_ratio=fl(q), angle=fl(ang), origin=org, **kwp),
                     mu.mask_2d_elliptical_from(major_axis_radius=fl(R), axis_ratio=fl(q), angle=fl(ang), **kw)]
             mk = lambda o: f"(KEll {hdr} {cq(R)} {cq(q)} {q2((co, si))} {cc} {cmask(np.array(o))})"
         else:
@@ -455,9 +474,9 @@ def run_case(inp):
             check_cs(ai, ci, si_); check_cs(ao, co, so)
             k2 = dict(inner_major_axis_radius=fl(Ri), inner_axis_ratio=fl(qi), inner_phi=fl(ai),
                       outer_major_axis_radius=fl(Ro), outer_axis_ratio=fl(qo), outer_phi=fl(ao))
-            outs = [aa.Mask2D.elliptical_annular(origin=org, **k2, **kw), mu.mask_2d_elliptical_annular_from(**k2, **kw)]
+            outs = [aa.Mask2D.elliptical_annular(origin=org, **k2, **kwp), mu.mask_2d_elliptical_annular_from(**k2, **kw)]
             mk = lambda o: f"(KEllAnn {hdr} {cq(Ri)} {cq(qi)} {q2((ci, si_))} {cq(Ro)} {cq(qo)} {q2((co, so))} {cc} {cmask(np.array(o))})"
-        base["py_ok"] = bool(tuple(outs[0].origin) == org and tuple(outs[0].pixel_scales) == ps and outs[0].shape_native == sh)
+        base["py_ok"] = bool(tuple(outs[0].origin) == org and tuple(outs[0].pixel_scales) == ps and tuple(outs[0].shape_native) == sh)
         terms = [mk(o) for o in outs]
         # mask_2d_centres_from: the pixel position of the requested centre
         mc = mu.mask_2d_centres_from(shape_native=sh, pixel_scales=ps, centre=ctr)
